@@ -3,7 +3,7 @@ import re
 from .. import callgraph, oblig, witness
 from ..oblig import strip_ext, holds, find_between, const_of
 from ..paths import enumerate_paths
-from ..vflow import Canon, const_int, strip_int_casts, possible_consts
+from ..vflow import Canon, const_int, strip_int_casts, possible_consts, access_path, fields_in_path
 from ..retval import returns_via_edge
 from ..cfg import reachable_from
 from ..build import AnalysisBroken
@@ -208,5 +208,42 @@ def run(ctx):
             else:
                 r.ok(inst, func=s.name, loc=c.loc, facts={'outcomes': sorted({(k, vv) for k, vv, _ in outs}, key=str)})
     r.require_min(2)
+    # ---------------- R12e the backend decides which versions it accepts
+    r = ctx.rule('R12e', 'the backend_version of fragment metadata is judged only by the backend\'s is_compatible_with operation',
+                 'a direct comparison with the instance\'s own version rejects fragments of backends that accept several versions (e.g. the null backend)')
+    em = P.mod('src/erasurecode.c')
+    compat = set(cg.slot_functions('is_compatible_with').values())
+    nver = 0
+    for fn in em.functions.values():
+        for ld in fn.insts():
+            if ld.op != 'load':
+                continue
+            root, steps = access_path(P, fn, ld.ops[0])
+            fl = fields_in_path(steps)
+            if not fl or fl[-1] != ('fragment_metadata', 'backend_version'):
+                continue
+            vals = {ld.res}
+            for i2 in fn.insts():
+                if i2.op in ('zext', 'sext', 'trunc', 'bitcast') and i2.ops[0] in vals:
+                    vals.add(i2.res)
+            for u in fn.insts():
+                ops = u.ops if u.op != 'phi' else [v for v, _ in u.incoming]
+                if not any(o in vals for o in ops) or u.res in vals:
+                    continue
+                nver += 1
+                inst = f'{fn.name}: use of metadata backend_version at line {u.line}'
+                if u.op == 'call' and set(cg.callees(fn, u)) & compat:
+                    r.ok(inst + ': handed to ops->is_compatible_with', func=fn.name, loc=u.loc)
+                elif u.op == 'call' and 'bswap' in u.callee:
+                    r.ok(inst + ': byte order conversion', func=fn.name, loc=u.loc, trivial=True)
+                elif u.op == 'store' or (u.op == 'call' and u.callee in ('@syslog', '@printf', '@fprintf')):
+                    r.ok(inst + ': copied / logged', func=fn.name, loc=u.loc, trivial=True)
+                else:
+                    r.fail(inst, func=fn.name, sig=f'backend_version consumed by {u.op}', loc=u.loc,
+                           msg=f'{fn.name} judges the fragment\'s backend_version itself ({u.op} at line {u.line}) instead of asking ops->is_compatible_with: '
+                               'backends that accept more than their own version are overruled')
+    r.require_min(2)
+
     ctx.borrow('c09', ['R09d'], 'helper getters accept only native-order headers: that is what rejects opposite-endian fragments')
     ctx.borrow('c10', ['R10e'], 'a rebuilt fragment validates only if its checksum is taken after the backend wrote the payload')
+    ctx.borrow('c09', ['R09b'], 'header acceptance obligations (version gate, checksum test)')
